@@ -526,6 +526,53 @@ VERUS_LIFTS["reduce_block"] = reduce_block_range
 
 
 # ---------------------------------------------------------------------------
+# the list of augmented symbols (C01, ACCEPT): the statements of calculate_reductions in front of `for state in &mut self.states`
+
+def aug_block_range(repo):
+    rel = "rustemo-compiler/src/table/mod.rs"
+    src = rsx.Source(os.path.join(repo, rel))
+    imp = src.find_impl(r"^impl < 'g , 's > LRTable < 'g , 's >", has="calculate_reductions")
+    fn = imp.child("fn", "calculate_reductions")
+    t = src.toks
+    lo = src.sig(fn.body_open + 1)
+    # the range ends in front of the first `for` statement at the top level of the body
+    depth, hi = 0, None
+    for i in range(fn.body_open + 1, fn.body_close):
+        if t[i].text in rsx.OPEN:
+            depth += 1
+        elif t[i].text in rsx.CLOSE:
+            depth -= 1
+        elif depth == 0 and t[i].kind == "ident" and t[i].text == "for":
+            hi = i
+            break
+    if hi is None or hi == lo:
+        raise ExtractError("aug block: no statements in front of the loop over the states")
+    follow = "".join(x.text for x in t[hi:hi + 30] if x.kind not in ("ws", "comment"))
+    if not follow.startswith("forstatein&mutself.states{"):
+        raise ExtractError("aug block: the first loop of calculate_reductions is no longer `for state in &mut self.states`")
+    block_text = src.text[t[lo].s:t[hi].s]
+    used = set(idents(src, lo, hi))
+    inside = bound_names_inside(src, lo, hi)
+    used_after = set(idents(src, hi, fn.body_close))
+    live_out = sorted(inside & used_after)
+    if live_out != ["aug_symbols"]:
+        raise ExtractError(f"aug block: the variables the range hands to the loops changed: now {live_out}, declared ['aug_symbols']")
+    outside = bound_names_outside(src, fn, lo, hi)
+    free = sorted(((outside & used) - inside) | ({"self"} if "self" in used else set()))
+    if free != ["self"]:
+        raise ExtractError(f"aug block: free variables changed: now {free}, declared ['self']")
+    sha = hashlib.sha256(block_text.encode()).hexdigest()[:16]
+    meta = {"lift": "aug_block", "file": rel, "lines": [src.line_of(t[lo].s), src.line_of(t[hi].s)], "sha256_16": sha, "free_variables": ["self"],
+            "note": "the statements of calculate_reductions in front of `for state in &mut self.states` (pinned), verbatim; the only variable they hand to the "
+                    "loops, `aug_symbols`, is the function's result (appended as its tail)"}
+    header = "impl<'g, 's> LRTable<'g, 's> {\n    fn aug_block(&self) -> Vec<SymbolIndex> {\n        "
+    return header + block_text + "aug_symbols\n    }\n}\n", meta
+
+
+VERUS_LIFTS["aug_block"] = aug_block_range
+
+
+# ---------------------------------------------------------------------------
 # TokenIterator::next (C06): the whole body of <TokenIterator as Iterator>::next as an inherent method, so that it can
 # carry a precondition (Verus: a trait method implementation cannot declare `requires`).
 
